@@ -69,8 +69,14 @@ def letters():
     return L
 
 
-def build_program(seq, machine, halt=True):
-    """Returns (bytes from ORG, number N of instructions to execute).  halt=False: no EI;HALT wait for the frame
+HALT_EDGE = 0x7FFF       # last byte of contended memory: PC is contended, PC+1 is not
+HALT_EDGE_PROLOGUE = 9   # instructions executed before the HALT at HALT_EDGE is first reached
+
+
+def build_program(seq, machine, halt=True, prog='std'):
+    """prog='halt7fff': prologue + letters, then JP 7FFF where a HALT waits (run in the display period under --cmio: the
+    fetches of the HALT wait are contended at one address and not at the next one).
+    Returns (bytes from ORG, number N of instructions to execute).  halt=False: no EI;HALT wait for the frame
     interrupt (used when the run is placed in the middle of the display period, where memory is contended)."""
     L = letters()
     code = []
@@ -94,6 +100,9 @@ def build_program(seq, machine, halt=True):
             emit(0x3E, 0x3C, 0x32, (here + 5) & 0xFF, (here + 5) >> 8, 0x00)    # LD A,3C ; LD (next),A ; NOP -> INC A
         else:
             emit(*b)
+    if prog == 'halt7fff':
+        emit(0xC3, HALT_EDGE & 0xFF, HALT_EDGE >> 8)
+        return bytes(code)
     if halt:
         emit(0xFB, 0x76)                    # EI ; HALT   (wait for the frame interrupt)
     emit(0x01, 0x05, 0x00, 0x11, 0x00, 0x92, 0xED, 0xB0)    # LD BC,5 ; LD DE,9200 ; LDIR
@@ -114,7 +123,7 @@ ISR_CODE = bytes((0xF5, 0x3A, COUNTER & 0xFF, COUNTER >> 8, 0x3C, 0x32, COUNTER 
 # (first 32/36 T-states of the frame), so it is accepted a second time; save points then fall *inside* the active window
 ISR_SHORT = bytes((0xFB, 0x00, 0xED, 0x4D))
 
-DEFAULT = dict(fmt='szx', machine='48K', cmio=0, python=0, t0='near', isr='long', verbose=0)
+DEFAULT = dict(fmt='szx', machine='48K', cmio=0, python=0, t0='near', isr='long', verbose=0, prog='std')
 ALTS = dict(fmt=['z80'], machine=['128K'], cmio=[1], python=[1], t0=['zero', 'late', 'big', 'display', 'huge'], isr=['short'], verbose=[1])
 
 
@@ -137,7 +146,7 @@ def t0_value(name, machine, seq_len):
 def write_init(cfg, seq, d):
     from skoolkit.snapshot import write_snapshot
     machine = cfg['machine']
-    prog = build_program(seq, machine, halt=cfg['t0'] != 'display')
+    prog = build_program(seq, machine, halt=cfg['t0'] != 'display', prog=cfg.get('prog', 'std'))
     if machine == '48K':
         ram = [(a * 7 + 3) & 0xFF for a in range(0x4000, 0x10000)]
 
@@ -154,6 +163,8 @@ def write_init(cfg, seq, d):
     poke(ORG, list(prog))
     poke(ISR, list(ISR_SHORT if cfg.get('isr') == 'short' else ISR_CODE))
     poke(COUNTER, [0])
+    if cfg.get('prog') == 'halt7fff':
+        poke(HALT_EDGE, [0x76])
     poke(0x7DFF, [ISR & 0xFF, ISR >> 8])
     poke(0x9000, [0x81, 0x7F, 0x00, 0x3C, 0xFF, 0x10])
     if machine != '48K':
@@ -290,6 +301,11 @@ def configs(d):
                 cfg = dict(DEFAULT, machine=machine, cmio=1, python=py, fmt=fmt, t0='display')
                 if cfg not in seen:
                     seen.append(cfg)
+    # a HALT wait at the last byte of contended memory, in the display period (save points inside the wait)
+    for machine in ('48K', '128K'):
+        for py in (0, 1):
+            for fmt in ('szx', 'z80'):
+                seen.append(dict(DEFAULT, machine=machine, cmio=1, python=py, fmt=fmt, t0='display', prog='halt7fff'))
     # instruction logging on the split legs, on each simulator and machine
     for kw in (dict(python=1), dict(cmio=1), dict(machine='128K'), dict(machine='128K', python=1), dict(fmt='z80')):
         cfg = dict(DEFAULT, verbose=1, **kw)
@@ -322,7 +338,7 @@ def _shard(shard, nshards, tier, seed):
     cfgs = configs(1 if tier == 'quick' else 2)
     progs = programs(tier)
     L = letters()
-    work = [(cfg, seq) for cfg in cfgs for seq in progs]
+    work = [(cfg, seq) for cfg in cfgs for seq in progs if cfg.get('prog', 'std') == 'std' or seq == (0,)]
     # A Z80 file cannot carry MEMPTR (exempt in the property).  Under --cmio, BIT n,(HL) copies MEMPTR bits into
     # F; if an interrupt routine then pushes AF those bits reach RAM.  Letters with BIT n,(HL) are therefore not
     # combined with (.z80, --cmio); the final BIT 7,(HL) of the epilogue is covered by the F-bit mask.
@@ -339,7 +355,7 @@ def _shard(shard, nshards, tier, seed):
         stats.transitions += legs
         stats.traces += n_total - 1
         names = '>'.join(L[i][0] for i in seq)
-        ctag = '{fmt}/{machine}/cmio{cmio}/py{python}/t0-{t0}/isr-{isr}'.format(**cfg) + ('/v' if cfg.get('verbose') else '')
+        ctag = '{fmt}/{machine}/cmio{cmio}/py{python}/t0-{t0}/isr-{isr}'.format(**cfg) + ('/v' if cfg.get('verbose') else '') + ('/halt7fff' if cfg.get('prog') == 'halt7fff' else '')
         stats.state((ctag, names))
         stats.nontriv((ctag, names))
         stats.counters['cfg_' + ctag] += 1
@@ -347,7 +363,11 @@ def _shard(shard, nshards, tier, seed):
             stats.violation('{}/{}/n1={}'.format(ctag, names, n1), {'cfg': cfg, 'seq': list(seq), 'n_total': n_total, 'n1': n1},
                             '; '.join(diffs[:4]),
                             tags={'fmt': cfg['fmt'], 'machine': cfg['machine'], 't0': cfg['t0'], 'cmio': cfg['cmio'], 'python': cfg['python'],
-                                  'fields': sorted({x.split(':')[0].split(' ')[0] for x in diffs})}, order=wi * 1000 + n1)
+                                  'fields': sorted({x.split(':')[0].split(' ')[0] for x in diffs}),
+                                  'fields_str': ','.join(sorted({x.split(':')[0].split(' ')[0] for x in diffs})),
+                                  'prog': cfg.get('prog', 'std'),
+                                  'resumed_inside_halt_wait': cfg.get('prog') == 'halt7fff' and n1 > HALT_EDGE_PROLOGUE},
+                            order=wi * 1000 + n1)
         if wi % 40 == 0:
             stats.sample({'config': cfg, 'program_letters': names, 'instructions': n_total, 'split_points': n_total - 1})
     return stats
@@ -358,7 +378,7 @@ def run(tier, seed):
     meta = dict(
         rule='programs = prologue + every letter ({}) + epilogue; EVERY split point n1 = 1..N-1 (N = 100/112 instructions: prologue, letters, HALT '
              'wait, IM 2 interrupt routine, LDIR, prefix chain, port writes, loop); configurations = deviations <= {} from (szx, 48K, C, plain, '
-             'start T = frame-180) over fmt z80, 128K, --cmio, --python, start T in {{3 frames later, frame-60, 2^24-170}}, -v on both legs of the split run (the per-instruction logging path of each simulator; the uninterrupted run stays silent); evaluations = split points; transitions = trace.main executions'.format(
+             'start T = frame-180) over fmt z80, 128K, --cmio, --python, start T in {{3 frames later, frame-60, 2^24-170}}, -v on both legs of the split run (the per-instruction logging path of each simulator; the uninterrupted run stays silent); plus, under --cmio in the display period on every (machine, simulator, format), a HALT wait at 0x7FFF (PC contended, PC+1 not) with every save point inside the wait; evaluations = split points; transitions = trace.main executions'.format(
                  'single letters' if tier == 'quick' else 'single letters + all pairs of 9 core letters', 1 if tier == 'quick' else 2),
         exhaustive=True,
         bound='all split points of every generated program; configuration deviations d <= {}'.format(1 if tier == 'quick' else 2),
